@@ -216,6 +216,15 @@ class Machine:
             return
         kw = {"exact": step["exact"]} if "exact" in step else {}
         extras = tuple(bld(ir.T(t)) for t in step.get("extra", ()))
+        if not (lv.M & self._extra_mask([ir.T(t) for t in step.get("extra", ())])).any():
+            # on an unsatisfiable set an UnsatError, an empty result and False are all correct answers (DESIGN 3.2); which one
+            # comes depends on whether unsatisfiability is already cached, and caches are not part of what a pickle promises
+            self.res.stats["twin_skipped_unsat"] = self.res.stats.get("twin_skipped_unsat", 0) + 1
+            try:
+                self._issue_blind(step, tw, extras, kw)
+            except claripy.errors.ClaripyError:
+                pass
+            return
 
         def norm_seq(r, n):
             r = list(r)
